@@ -124,8 +124,33 @@ def check_case(case) -> list[Failure]:
 shrink_candidates = docprop.shrink_candidates
 
 
+SECTION_ID_PAIRS = [("1.10", "1.1"), ("02", "2"), ("2.50", "2.5"), ("1e3", "1000"), ("1.0", "1"), ("007", "7"), ("1.10b", "1.1b"), ("0.50", "0.5"), ("10", "1"),
+                    ("3.140", "3.14"), ("1E2", "100"), ("2.", "2")]
+
+
+def section_id_cases(ctx: Ctx) -> Stats:
+    """Two sections whose ids are different texts denoting the same number (the tenth sub-section §1.10 beside §1.1, §02 beside
+    §2): a section id is a label, so both are read, written and re-read as they were spelled."""
+    st = Stats()
+    A = lambda k, i: {"t": "assign", "key": k, "value": {"v": "int", "i": str(i)}, "lead": [], "trail": None}  # noqa: E731
+    for a, b in SECTION_ID_PAIRS:
+        for order in (0, 1):
+            for named in (True, False):
+                ids = (a, b) if order == 0 else (b, a)
+                body = [{"t": "section", "id": ids[0], "name": "ALPHA" if named else ids[0], "ann": None, "kids": [A("X", 1)], "lead": [], "tail": []},
+                        {"t": "section", "id": ids[1], "name": "BETA" if named else ids[1], "ann": None, "kids": [A("Y", 2)], "lead": [], "tail": []}]
+                doc = {"name": "D", "sentinel": None, "frontmatter": None, "meta": [], "sep": False, "body": body, "trailing": []}
+                for sp in ({"k": "canon"}, {"k": "len", "seed": ctx.seed * 7 + order, "level": 0.5}):
+                    text, info = docprop.render_case(doc, sp)
+                    st.case({"text": text}, nontrivial=True, labels=["section_id_spellings"], key=text)
+                    for sig, det in oracle(doc, sp, text, info):
+                        st.fail(sig, {"doc": doc, "sp": sp}, det)
+    return st
+
+
 def run(ctx: Ctx) -> Stats:
     st = docprop.run_docs(ctx, shard, ctx.pick(700, 9000))
+    st.merge(section_id_cases(ctx))
     st.notes.append("7 of 8 shards steer away from the known class 'comment after an empty container header' "
                     "(by construction, counted under label avoided_*); the 8th generates inside it")
     return st
